@@ -4,6 +4,7 @@ import (
 	"context"
 	"encoding/hex"
 	"encoding/json"
+	"errors"
 	"fmt"
 	"sort"
 	"strconv"
@@ -337,6 +338,67 @@ func (s *Session) Exec(line string) (obs string, viol string) {
 			viol = "iteration yields " + l + ", live entries are " + want
 		}
 		return l, viol
+	case "iterstop":
+		// iterstop <slot> <j>: the callback fails after it has seen j+1 entries; Iter must hand
+		// that error back and must have delivered exactly the first entries, in order
+		m := tree(1)
+		if m == nil {
+			return "bad-slot", ""
+		}
+		j := int(num(2))
+		var got []string
+		err := m.Iter(s.ctx, func(k, v interface{}) error {
+			got = append(got, fmt.Sprintf("%d=%d", s.Cfg.KeyNat(k), s.Cfg.ValNat(v)))
+			if len(got) > j {
+				return errStop
+			}
+			return nil
+		})
+		o := s.Oracle[int(num(1))]
+		var want []string
+		for _, k := range sortedKeys64(o) {
+			if len(want) > j {
+				break
+			}
+			want = append(want, fmt.Sprintf("%d=%d", k, o[k]))
+		}
+		res := "ok"
+		if len(o) > j {
+			res = "cberr"
+			if err == nil || !errors.Is(err, errStop) {
+				viol = fmt.Sprintf("the callback's error was not returned by Iter (got %v)", err)
+			}
+		} else if err != nil {
+			viol = "iteration failed on a healthy store: " + err.Error()
+		}
+		if viol == "" && strings.Join(got, ",") != strings.Join(want, ",") {
+			viol = fmt.Sprintf("a callback failing after %d entries saw [%s], the first entries are [%s]", j+1, strings.Join(got, ","), strings.Join(want, ","))
+		}
+		return res + " [" + strings.Join(got, ",") + "]", viol
+	case "getnil":
+		// Get with a nil value pointer only reports presence
+		m := tree(1)
+		if m == nil {
+			return "bad-slot", ""
+		}
+		k := num(2)
+		found, err := m.Get(s.ctx, s.Cfg.Key(k), nil)
+		if err != nil {
+			return errClass(err), "lookup failed on a healthy store: " + err.Error()
+		}
+		_, want := s.Oracle[int(num(1))][k]
+		if found != want {
+			viol = fmt.Sprintf("Get(%d, nil) reports %v, the key is present: %v", k, found, want)
+		}
+		return fmt.Sprint(found), viol
+	case "newmem":
+		// NewInMemory(): branch factor 16, no store (the configuration's key kind must be one the
+		// default comparison and layer know)
+		m := mast.NewInMemory()
+		s.Trees[int(num(1))] = &m
+		s.Oracle[int(num(1))] = map[uint64]uint64{}
+		delete(s.bases, int(num(1)))
+		return "ok", ""
 	case "thresholds":
 		m := tree(1)
 		if m == nil {
@@ -512,6 +574,9 @@ func (s *Session) ModelLine(line string) string {
 	}
 	if t[0] == "cwalk" {
 		return "echo " + s.lastCwalk
+	}
+	if t[0] == "newmem" {
+		return "new " + t[1]
 	}
 	if t[0] == "vcheck" || t[0] == "twostore" {
 		return "echo ok"
